@@ -16,6 +16,9 @@ Families
               buffers' dtype) and compute_loss/price (which re-simulate: hedger cast to the dtype
               simulations are produced in) have the expected dtype and live on the cpu.
   dtype_history  the same checks along one explicit history (replay of a counterexample).
+  produced_in    every primary class x global default x declared dtype x way of declaring it: the following
+              simulation is PRODUCED in the declared dtype (column 0 = declared-dtype rounding of the initial
+              state, values not all representable in a narrower dtype, draws requested in the declared dtype).
 """
 from __future__ import annotations
 
@@ -1047,6 +1050,185 @@ def functional_dtypes(ctx, block):
         torch.set_default_dtype(prev)
 
 
+# ---------------------------------------------------------------------------------
+# "subsequent simulations are PRODUCED in it": values, not labels
+# ---------------------------------------------------------------------------------
+# Histories that make an instrument declare dtype D (the last operation is always a simulation).
+ROUTES = ("ctor", "to", "to_kw", "alias", "to_tensor", "to_instrument", "ctor_other_to", "sim_to", "d.to")
+ALIAS_OF = {"float64": "double", "float32": "float", "float16": "half", "bfloat16": "bfloat16"}
+GAUSS_SITES = ("randn", "randn_like", "rand", "rand_like", "mvn")    # draws requested with an explicit dtype
+# initial states (python floats) that no narrower floating dtype represents (relative rounding error of the
+# narrower dtype > 2**-27, asserted below) - 'default': the documented default initial state of the class
+PRODUCED_INIT = {"geometric_brownian": [1.3], "cir": [0.09], "heston": [1.3, 0.09], "vasicek": [0.013],
+                 "merton_jump": [1.3], "kou_jump": [1.3], "rough_bergomi": [1.3, 0.09], "local_volatility": [1.3]}
+
+
+def _scripted(shape, dtype, req):
+    """One fixed script for every draw: non-dyadic float64 values (the answer is cast to the dtype the code asks for)."""
+    n = 1
+    for k in shape:
+        n *= k
+    base = torch.arange(n, dtype=torch.float64).reshape(shape)
+    site = req["site"]
+    if site == "poisson":
+        return base % 2
+    if site in ("rand", "rand_like", "uniform"):
+        return (0.137 + 0.31 * base) % 1.0
+    if site == "exponential":
+        return 0.013 + 0.0071 * base
+    return ((0.7310585786300049 * (base + 1 + req["index"])) % 2.0) - 1.0
+
+
+def _narrower(D):
+    """Floating dtypes with a shorter significand than D (none for the two half precisions: nothing is produced
+    in bfloat16 on behalf of float16)."""
+    if D in HALF:
+        return []
+    return [n for n, t in DTYPES.items() if torch.finfo(t).eps > torch.finfo(D).eps]
+
+
+@family
+def produced_in(ctx, block):
+    """For every way of declaring dtype D the following simulation is produced in D, not merely labelled D:
+    with every random draw answered from one fixed script,
+    (a) column 0 of the series that carry the initial state equals the D-rounding of the requested (or the
+        documented default) initial state: |col0 - init| <= 4 eps(D) |init|.  Derivation: the python float is rounded
+        once to D (<= eps/2 relative); the documented log-spot schemes return exp(log(x)), whose relative error is
+        <= (|log x| + 1) ulp <= 2 eps for |log x| < 1; everything else copies the state.  A simulation produced in a
+        narrower dtype N and widened afterwards carries N's rounding error (> 2**-27 relative for the alphabet, asserted),
+    (b) for each narrower floating dtype N: not every simulated value (columns 1..) of a series is representable
+        in N (a series computed in N and widened consists of N-representable values only),
+    (c) every gaussian/uniform draw that takes an explicit dtype (engine calls: randn, randn_like, rand_like, mvn)
+        is requested in D (covers D narrower than the global default, where rounding hides (a) and (b)).
+    No bitwise agreement with any particular operation order is demanded."""
+    import pfhedge.instruments as I
+    from mc.core.rngscript import OwnedRNG
+    prim = block["primary"]
+    info = INSTRUMENTS[prim]
+    prev = torch.get_default_dtype()
+    try:
+        for dname in block["declared"]:
+            D = DTYPES[dname]
+            for route in block["routes"]:
+                for init_kind in block["inits"]:
+                    torch.set_default_dtype(DTYPES[block["default"]])
+                    mini = {"primary": prim, "default": block["default"], "declared": [dname], "routes": [route],
+                            "inits": [init_kind]}
+                    init = tuple(PRODUCED_INIT[info["gen"]]) if init_kind == "init" else None
+                    expect0 = init if init is not None else tuple(info["init"]({}))
+                    wider = D != DTYPES[block["default"]] and torch.finfo(D).eps < torch.finfo(DTYPES[block["default"]]).eps
+                    ctx.tick(1, nontrivial=1 if D != DTYPES[block["default"]] else 0)
+                    kw = dict(PRIMARY_KW.get(prim, {}))
+                    other = torch.float32 if D == torch.float64 else torch.float64
+                    dead = None
+                    with OwnedRNG({s_: _scripted for s_ in OwnedRNG.SITES}) as rng:
+                        cls = getattr(I, prim)
+                        p = cls(dtype=D, **kw) if route == "ctor" else (
+                            cls(dtype=other, **kw) if route == "ctor_other_to" else cls(**kw))
+                        d = None
+                        if route in ("to", "ctor_other_to"):
+                            p.to(D)
+                        elif route == "to_kw":
+                            p.to(dtype=D)
+                        elif route == "alias":
+                            getattr(p, ALIAS_OF[dname])()
+                        elif route == "to_tensor":
+                            p.to(torch.zeros(1, dtype=D))
+                        elif route == "to_instrument":
+                            p.to(I.BrownianStock(dtype=D))
+                        elif route == "sim_to":
+                            p.simulate(n_paths=2, time_horizon=2 * DT_STEP)
+                            p.to(D)
+                        elif route == "d.to":
+                            d = I.EuropeanOption(p, maturity=3 * DT_STEP)
+                            d.to(D)
+                        elif route != "ctor":
+                            raise HarnessError(f"unknown route {route}")
+                        declared_now = p.dtype
+                        mark = len(rng.log)
+                        try:
+                            if declared_now != D:
+                                pass          # judged below; nothing is simulated
+                            elif d is not None:
+                                d.simulate(n_paths=2, **({} if init is None else {"init_state": init}))
+                            else:
+                                p.simulate(n_paths=2, time_horizon=3 * DT_STEP,
+                                           **({} if init is None else {"init_state": init}))
+                        except HarnessError:
+                            raise
+                        except (NotImplementedError, RuntimeError) as e:
+                            if not is_backend_unsupported(e, D):
+                                raise
+                            dead = e
+                        draws = rng.log[mark:]
+                    if declared_now != D:
+                        # the cast itself is wrong (the automaton of dtype_bfs judges casts; reported here as well so
+                        # that the case is not silently dropped)
+                        ctx.violation(prim + ".to", f"route_declares_other_dtype:{route}:{dname}",
+                                      f"{prim}: route {route} towards {dname} leaves the instrument declaring "
+                                      f"{declared_now}", observed=str(declared_now), expected=dname, block=mini)
+                        continue
+                    if dead is not None:
+                        ctx.add("produced_in_half_precision_dead_ends", 1)
+                        continue
+                    site = prim + ".simulate"
+                    tag = f"{dname}_under_default_{block['default']}"
+                    # (c) dtype of the draws
+                    bad = sorted({(r["site"], NAME_OF.get(r["dtype"], str(r["dtype"]))) for r in draws
+                                  if r["site"] in GAUSS_SITES and r["dtype"] != D})
+                    ctx.add("produced_in_draws_checked", sum(1 for r in draws if r["site"] in GAUSS_SITES))
+                    if bad:
+                        ctx.violation(site, f"draws_not_in_declared_dtype:{bad[0][0]}_{bad[0][1]}:{tag}",
+                                      f"{prim} declares {dname} (route {route}, global default {block['default']}) but "
+                                      f"simulate() asks its random engine for {bad}", observed=[list(b) for b in bad],
+                                      expected=dname, block=mini)
+                    bufs = dict(p.named_buffers())
+                    missing = [n_ for n_ in info["buffers"] if n_ not in bufs or bufs[n_].dim() != 2]
+                    if missing:
+                        ctx.violation(site, f"series_missing_after_simulate:{missing[0]}:{tag}",
+                                      f"{prim} (route {route}): no 2-d buffer {missing} after simulate()",
+                                      observed=sorted(bufs), expected=list(info["buffers"]), block=mini)
+                        continue
+                    # (a) column 0
+                    for name, x0 in zip(info["buffers"], expect0):
+                        col0 = bufs[name][:, 0].double()
+                        want = float(torch.tensor(x0, dtype=D).double())
+                        tol = 4 * torch.finfo(D).eps * abs(x0)
+                        err = float((col0 - want).abs().max())
+                        for N in _narrower(D):
+                            lost = abs(float(torch.tensor(x0, dtype=DTYPES[N]).double()) - x0)
+                            if init is not None and lost <= 2.0 ** -27 * abs(x0):
+                                raise HarnessError(f"initial state {x0} is too close to a {N} number")
+                        ctx.add("produced_in_col0_checked", 1)
+                        if not err <= tol:
+                            as_n = [N for N in _narrower(D)
+                                    if float((col0 - float(torch.tensor(x0, dtype=DTYPES[N]).double())).abs().max()) == 0.0]
+                            what = f"rounded_to_{as_n[0]}" if as_n else "differs"
+                            ctx.violation(site, f"initial_state_{what}:{name}:{init_kind}:{tag}",
+                                          f"{prim} declares {dname} (route {route}, default {block['default']}): column 0 "
+                                          f"of {name} is {col0.tolist()} for initial state {x0!r} "
+                                          f"({'requested' if init is not None else 'documented default'}); the {dname} "
+                                          f"rounding is {want!r}, |diff| {err:.3e} > {tol:.3e}",
+                                          observed=col0.tolist(), expected=want, block=mini)
+                    # (b) values representable in a narrower dtype
+                    for name in info["buffers"]:
+                        x = bufs[name][:, 1:]
+                        for N in _narrower(D):
+                            if N in ("float16", "bfloat16") and "float32" in _narrower(D):
+                                continue      # representable in a half precision implies representable in float32
+                            ctx.add("produced_in_series_checked", 1)
+                            if x.numel() and bool((x.to(DTYPES[N]).to(D) == x).all()):
+                                ctx.violation(site, f"values_all_representable_in_{N}:{name}:{tag}",
+                                              f"{prim} declares {dname} (route {route}, default {block['default']}): all "
+                                              f"{x.numel()} simulated values of {name} are exactly representable in {N} "
+                                              f"- the series was produced in {N} and widened",
+                                              observed=x.double().flatten().tolist()[:6], expected=f"computed in {dname}",
+                                              block=mini)
+                    ctx.outcome(("produced_in", dname, block["default"], wider))
+    finally:
+        torch.set_default_dtype(prev)
+
+
 @family
 def batch(ctx, block):
     for b in block["blocks"]:
@@ -1081,6 +1263,13 @@ def run(ctx):
         ctx.run("ctor_rejects", {"primary": prim, "dtypes": list(DM.FLOATS) + list(DM.NONFLOAT)})
     for default in ("float32", "float64"):
         ctx.run("functional_dtypes", {"default": default, "dtypes": list(DM.FLOATS)})
+    # simulations are produced in the declared dtype (values and draws, not labels): every primary class, both
+    # global defaults, every floating dtype, every way of declaring it, requested and default initial state
+    ctx.alphabet("produced_in routes", list(ROUTES))
+    for prim in primaries:
+        for default in ("float32", "float64"):
+            ctx.run("produced_in", {"primary": prim, "default": default, "declared": list(DM.FLOATS),
+                                    "routes": list(ROUTES), "inits": ["init", "default"]})
     blocks = []
     if ctx.quick:
         # every primary class to a fixpoint with one derivative class each (all six classes covered),
